@@ -209,10 +209,13 @@ def traces_slash(rng):
         # expected tokens: as without slash, except that traces without a filler are deleted too
         nparams = {k: v for k, v in params.items() if k != "slash"}
         res2, _, ret2 = tx.run_impl([("ptb_delete_traces", nparams)], tx.fresh(t, 1))
-        kept = set(x.data.get('uid') for x in trees.terminals(ret))
-        kept2 = set(x.data.get('uid') for x in trees.terminals(ret2)) if ret2 is not None else set()
-        ok = kept <= kept2 and [x.data['num'] for x in trees.terminals(ret)] == list(range(1, len(kept) + 1)) and \
-            all((n.children or 'num' in n.data) for n in trees.preorder(ret) if n is not ret)
+        try:
+            kept = set(x.data.get('uid') for x in trees.terminals(ret))
+            kept2 = set(x.data.get('uid') for x in trees.terminals(ret2)) if ret2 is not None else set()
+            ok = kept <= kept2 and [x.data['num'] for x in trees.terminals(ret)] == list(range(1, len(kept) + 1)) and \
+                all((n.children or 'num' in n.data) for n in trees.preorder(ret) if n is not ret)
+        except ValueError:
+            kept, kept2, ok = set(), set(), False          # not a well-formed tree (e.g. a childless constituent left behind)
         l = Line("pred", "P.C18.eq", ["a", "a" if ok else "b"], note="slash: tokens %s vs without slash %s" % (sorted(kept), sorted(kept2)))
         lines.append(l)
     elif not res.startswith("ERR:ValueError"):
